@@ -4,6 +4,7 @@ package main
 
 import (
 	"fmt"
+	"strings"
 	"go/token"
 	"go/types"
 
@@ -647,8 +648,29 @@ func ruleC15_7(c *Ctx) {
 					}
 				}
 			}
-			if !isBody {
-				ok, why = false, "the call sits in a loop that is not the iteration over the request's fragments"
+			// or a loop with a constant bound on a counter (`for i := 0; i < 2; i++`)
+			bounded := false
+			if ifi, isIf := l.Header.Instrs[len(l.Header.Instrs)-1].(*ssa.If); isIf {
+				if cmp, isB := ifi.Cond.(*ssa.BinOp); isB && (cmp.Op == token.LSS || cmp.Op == token.LEQ) {
+					if _, isK := constInt(cmp.Y); isK {
+						if ph, isPhi := cmp.X.(*ssa.Phi); isPhi && ph.Block() == l.Header {
+							init, step := false, false
+							for _, e := range ph.Edges {
+								if _, k := constInt(e); k {
+									init = true
+								} else if bo, isBo := e.(*ssa.BinOp); isBo && bo.Op == token.ADD && bo.X == ssa.Value(ph) {
+									if kk, k := constInt(bo.Y); k && kk > 0 {
+										step = true
+									}
+								}
+							}
+							bounded = init && step
+						}
+					}
+				}
+			}
+			if !isBody && !bounded {
+				ok, why = false, "the call sits in a loop that is neither the iteration over the request's fragments nor bounded by a constant"
 			}
 		}
 		c.check(ok, fmt.Sprintf("OnCReact: getConn call #%d is not retried in a loop", n), c.at(call), why,
@@ -673,18 +695,7 @@ func ruleC16_6(c *Ctx) {
 	c.examined(len(push.Blocks))
 	frag := ssa.Value(push.Params[0])
 	// allowed reasons not to arm: timeout <= 0, Owner == nil, Peer == nil (conditions on the parameters only, none on Frag.Timeout)
-	exempt := func(g Guard) bool {
-		x, _, y, ok := cmpGuard(g)
-		if !ok {
-			return false
-		}
-		for _, v := range []ssa.Value{x, y} {
-			if base, is := fieldLoad(v, toF); is && strip(base) == frag {
-				return false
-			}
-		}
-		return true
-	}
+	exempt := func(g Guard) bool { return !readsField(g.Cond, toF, 0) }
 	var inserts, sets []ssa.Instruction
 	p.allInstrsDeep(push, func(in ssa.Instruction) {
 		if call, ok := in.(*ssa.Call); ok {
@@ -717,4 +728,586 @@ func ruleC16_6(c *Ctx) {
 	}
 	check("the deadline is set", sets, "the deadline of a fragment that goes in flight is not (always) set: a fragment re-sent after a redirect keeps a stale deadline")
 	check("the fragment is inserted into the deadline tree", inserts, "a fragment that goes in flight is inserted into the deadline tree only under a condition on its own state (e.g. only when its deadline is still zero): DequeueInFrag removed it when the redirect reply was decoded, so a request that stalls at the redirect target is never timed out and its client waits forever")
+}
+
+// ---------------------------------------------------------------------------------------------
+// rules added after the fifth round
+
+func init() {
+	rule("C03.8", "E2", "fragments are never recycled: fragPool.Get hands out a fresh object and no *Frag is put into a sync.Pool (a request is completed - and its Msg recycled - while sibling fragments may still be in flight)", 2, ruleC03_8)
+	rule("C14.10", "E3", "the node table is replaced, not merged: every entry written into ServerMap by a refresh overwrites (Set) or follows the unconditional removal of all old entries - hashmap.Insert keeps an existing key's old value", 1, ruleC14_10)
+}
+
+func ruleC03_8(c *Ctx) {
+	p := c.P
+	get := c.needMethod(pkgCore, "fragPool", "Get")
+	fragT := p.Named(pkgCore, "Frag")
+	if get == nil {
+		return
+	}
+	if fragT == nil {
+		c.undecided("core.Frag", "-", "type not found")
+		return
+	}
+	c.examined(len(get.Blocks))
+	fresh := true
+	n := 0
+	for _, r := range returnsReachable(get) {
+		n++
+		for _, root := range flowRoots(results(r.(*ssa.Return))[0], nil) {
+			if a, ok := root.(*ssa.Alloc); !ok || !a.Heap {
+				fresh = false
+			}
+		}
+	}
+	c.check(fresh && n > 0, "fragPool.Get returns a fresh fragment", p.pos(get.Pos()), "new(Frag) on every return",
+		"fragPool.Get can return a fragment that was used before: a completed request's sibling fragments may still be queued on backend connections (an error on one fragment completes the whole request), so a reused object receives the late reply of its previous life and completes another client's request with it")
+	isFragPtr := func(t types.Type) bool {
+		pt, ok := t.(*types.Pointer)
+		return ok && types.Identical(pt.Elem(), fragT)
+	}
+	puts, bad := 0, ""
+	for _, fn := range p.Funcs {
+		if fn.Synthetic != "" || fn.Blocks == nil {
+			continue
+		}
+		allInstrs(fn, func(in ssa.Instruction) {
+			call, ok := in.(*ssa.Call)
+			if !ok || staticCalleeName(&call.Call) != "(*sync.Pool).Put" {
+				return
+			}
+			puts++
+			arg := call.Call.Args[len(call.Call.Args)-1]
+			if mi, ok := arg.(*ssa.MakeInterface); ok && isFragPtr(mi.X.Type()) {
+				bad = c.at(in)
+			}
+		})
+	}
+	c.examined(puts)
+	pos := "-"
+	if bad != "" {
+		pos = bad
+	}
+	c.check(bad == "", "no fragment is put into a sync.Pool", pos, fmt.Sprintf("%d sync.Pool.Put sites, none takes a *Frag", puts),
+		"a *Frag is returned to a sync.Pool: fragments of a request that was completed early (by an error on a sibling, by a timeout) are still in flight on their backend connections; once reused, the late reply is counted and merged into the request that now owns the object")
+}
+
+func ruleC14_10(c *Ctx) {
+	p := c.P
+	set := c.needMethod(pkgCore, "ClusterNodes", "setServer")
+	smF := p.Field(pkgCore, "ClusterNodes", "ServerMap")
+	if set == nil {
+		return
+	}
+	if smF == nil {
+		c.undecided("ClusterNodes.ServerMap", "-", "field not found")
+		return
+	}
+	c.examined(len(set.Blocks))
+	onServerMap := func(call *ssa.Call) bool {
+		if len(call.Call.Args) == 0 {
+			return false
+		}
+		if _, ok := fieldLoad(call.Call.Args[0], smF); ok {
+			return true
+		}
+		fa, ok := call.Call.Args[0].(*ssa.FieldAddr)
+		return ok && fieldVar(fa.X.Type(), fa.Field) == smF
+	}
+	// the clearing loop: a range over ServerMap.Iter() whose body deletes the iterated key with no further condition
+	var clear ssa.Instruction
+	loops := loopsOf(set)
+	var inserts []*ssa.Call
+	p.allInstrsDeep(set, func(in ssa.Instruction) {
+		call, ok := in.(*ssa.Call)
+		if !ok || !onServerMap(call) {
+			return
+		}
+		switch {
+		case strings.HasSuffix(staticCalleeName(&call.Call), ".HashMap).Del"):
+			l := innermostLoop(loops, call.Block())
+			if l == nil || call.Parent() != set {
+				return
+			}
+			// unconditional inside the loop: every guard of the call is the loop's own "channel still open" test
+			uncond := true
+			for _, g := range guardsAtRaw(call.Block()) {
+				if l.Blocks[g.If.Block()] && g.If.Block() != l.Header {
+					uncond = false
+				}
+			}
+			// the key deleted is the key received from the iterator
+			key := strip(call.Call.Args[1])
+			fromIter := false
+			for _, r := range flowRoots(key, nil) {
+				if strings.Contains(expr(r), "Iter(") {
+					fromIter = true
+				}
+			}
+			if uncond && fromIter {
+				clear = in
+			}
+		case strings.HasSuffix(staticCalleeName(&call.Call), ".HashMap).Insert"):
+			inserts = append(inserts, call)
+		}
+	})
+	n := 0
+	for _, ins := range inserts {
+		n++
+		li := lift(ins, set)
+		ok := clear != nil && li != nil && canReach(clear, li) && !canReach(li, clear)
+		c.check(ok, fmt.Sprintf("setServer: ServerMap.Insert #%d writes into an emptied table", n), c.at(ins), "after the unconditional removal of every old entry",
+			"nodes are written into ServerMap with Insert although old entries may still be there: hashmap.Insert keeps the existing value of a key, so a node that changes role (failover) keeps its old *ClusterNode; the ticker takes the role of each pool from ServerMap, so the demoted master's pool stays a master pool and its connections never send READONLY while route() already picks it for replica reads")
+	}
+	if n == 0 {
+		// written with Set (overwrite): nothing to require
+		sets := 0
+		p.allInstrsDeep(set, func(in ssa.Instruction) {
+			if call, ok := in.(*ssa.Call); ok && onServerMap(call) && strings.HasSuffix(staticCalleeName(&call.Call), ".HashMap).Set") {
+				sets++
+			}
+		})
+		c.check(sets > 0, "setServer: ServerMap entries are written", p.pos(set.Pos()), "with Set (overwrites)", "setServer writes nothing into ServerMap")
+	}
+}
+
+// ---------------------------------------------------------------------------------------------
+// rules added after the second half of the fifth round
+
+func init() {
+	rule("C04.9", "E4", "a pool takes the role the topology gives it whenever it differs: the store in SetIsSlave depends on nothing but the comparison of the old and the new role", 1, ruleC04_9)
+	rule("C08.6", "E3", "a request is consumed whole, accepted or rejected: every per-command reader returns nil only after its loop over the announced arguments ran to exhaustion", 4, ruleC08_6)
+	rule("C11.6", "E3+E4", "on Linux the reactor decides nothing from the event flags but which of write/read to call: readable data (an error reply sent just before a reset) is read before the connection is given up", 2, ruleC11_6)
+	rule("C12.7", "E8", "a slice is not indexed with the range index of a different collection unless it was made with that collection's length", 1, ruleC12_7)
+	rule("C13.6", "E3", "every redirect reply is handed to OnMoved: no condition on the parsed address or slot drops the fragment between the classification and the hand-over", 1, ruleC13_6)
+	rule("C15.8", "E8", "the poller's wait is bounded by a positive constant, so the ticker and the timeout sweep run on an idle proxy", 1, ruleC15_8)
+}
+
+func ruleC04_9(c *Ctx) {
+	p := c.P
+	set := c.needMethod(pkgCore, "Pool", "SetIsSlave")
+	isSlaveF := p.Field(pkgCore, "Pool", "isSlave")
+	if set == nil {
+		return
+	}
+	if isSlaveF == nil {
+		c.undecided("Pool.isSlave", "-", "field not found")
+		return
+	}
+	c.examined(len(set.Blocks))
+	recv, want := ssa.Value(set.Params[0]), ssa.Value(set.Params[1])
+	n := 0
+	p.allInstrsDeep(set, func(in ssa.Instruction) {
+		st, ok := in.(*ssa.Store)
+		if !ok {
+			return
+		}
+		fa, ok := st.Addr.(*ssa.FieldAddr)
+		if !ok || fieldVar(fa.X.Type(), fa.Field) != isSlaveF || strip(fa.X) != recv {
+			return
+		}
+		n++
+		gs := guardsOf(in)
+		okV := strip(st.Val) == want
+		extra := ""
+		for _, g := range gs {
+			x, op, y, isC := cmpGuard(g)
+			roleCmp := false
+			if isC && (op == token.EQL || op == token.NEQ) {
+				_, lx := fieldLoad(x, isSlaveF)
+				_, ly := fieldLoad(y, isSlaveF)
+				if (lx && strip(y) == want) || (ly && strip(x) == want) {
+					roleCmp = true
+				}
+			}
+			if !roleCmp {
+				extra = g.String()
+			}
+		}
+		c.check(okV && extra == "", "Pool.SetIsSlave: the role is taken over whenever it differs", c.at(in), "p.isSlave = isSlave under p.isSlave != isSlave only",
+			"the pool's role is updated only under a further condition ("+extra+"): seed pools are created as master pools and rely on SetIsSlave to be corrected; a replica whose pool has no open connection at that moment stays a master pool, its connections never send READONLY, the replica answers -MOVED and its reads go to the master", withGuards(gs))
+	})
+	if n == 0 {
+		c.bad("Pool.SetIsSlave: the role is taken over whenever it differs", p.pos(set.Pos()), "SetIsSlave does not store the new role")
+	}
+}
+
+func ruleC08_6(c *Ctx) {
+	p := c.P
+	parseLine := c.needMethod(pkgCore, "CRespCodec", "parseLine")
+	if parseLine == nil {
+		return
+	}
+	for _, m := range []string{"Default", "Eval", "Frag1", "Frag2"} {
+		fn := c.needMethod(pkgCore, "CRespCodec", m)
+		if fn == nil {
+			continue
+		}
+		c.examined(len(fn.Blocks))
+		name := "CRespCodec." + m + ": returns nil only after all announced arguments were read"
+		// the announced count: the int parameter of the reader
+		var nPrm *ssa.Parameter
+		for _, prm := range fn.Params {
+			if b, ok := prm.Type().Underlying().(*types.Basic); ok && b.Kind() == types.Int {
+				nPrm = prm
+			}
+		}
+		if nPrm == nil {
+			c.undecided(name, p.pos(fn.Pos()), "the reader has no int parameter (the announced argument count)")
+			continue
+		}
+		// the function that holds the argument loop: the reader itself or a helper of its family, seen under the
+		// reader's call site (a helper shared by Eval and Default gets each one's own n)
+		type found struct {
+			g     *ssa.Function
+			loop  *Loop
+			bound bool
+			site  ssa.Instruction // in fn: the parseLine call or the call of the helper holding the loop
+		}
+		var hold *found
+		p.virtualCalls(fn, []*ssa.Function{parseLine}, func(pl ssa.CallInstruction) {
+			g := pl.Parent()
+			l := innermostLoop(loopsOf(g), pl.Block())
+			if l == nil {
+				return
+			}
+			for _, l2 := range loopsOf(g) {
+				if l2.Blocks[l.Header] && l2.Header != l.Header {
+					l = l2 // outermost loop around the call
+				}
+			}
+			f := &found{g: g, loop: l}
+			if ifi, ok := l.Header.Instrs[len(l.Header.Instrs)-1].(*ssa.If); ok {
+				if cmp, ok := ifi.Cond.(*ssa.BinOp); ok && cmp.Op == token.LSS && strip(cmp.Y) == ssa.Value(nPrm) {
+					f.bound = true
+				}
+			}
+			f.site = lift(pl.(ssa.Instruction), fn)
+			if hold == nil || (f.bound && !hold.bound) {
+				hold = f
+			}
+		})
+		if hold == nil {
+			c.undecided(name, p.pos(fn.Pos()), "parseLine is not called in a loop (in the reader or a helper of it)")
+			continue
+		}
+		okAll, where := hold.bound, ""
+		if !hold.bound {
+			where = "the argument loop is not `for i < n`"
+		}
+		// in the function holding the loop: nil is returned only behind the exhaustion of the loop
+		for _, r := range returnsReachable(hold.g) {
+			rs := results(r.(*ssa.Return))
+			if !isNilConst(rs[len(rs)-1]) {
+				continue
+			}
+			rb := r.Block()
+			if !hold.loop.Header.Dominates(rb) || hold.loop.Blocks[rb] {
+				okAll, where = false, c.at(r)
+				continue
+			}
+			for _, e := range hold.loop.exitEdges() {
+				if e[0] != hold.loop.Header && (e[1] == rb || reachableBlocks(e[1], nil)[rb]) {
+					okAll, where = false, c.at(r)
+				}
+			}
+		}
+		// in the reader itself (when the loop lives in a helper): nil is returned only after that helper was called
+		if hold.g != fn && hold.site != nil {
+			for _, r := range returnsReachable(fn) {
+				rs := results(r.(*ssa.Return))
+				if isNilConst(rs[len(rs)-1]) && !dominatesInstr(hold.site, r) {
+					okAll, where = false, c.at(r)
+				}
+			}
+		}
+		c.check(okAll, name, p.pos(fn.Pos()), "every `return nil` is behind the exhaustion of `for i < n { parseLine }`",
+			"the reader can return nil without having read all n announced arguments (at "+where+"): Decode then discards only what was read, the unread arguments of this (rejected or accepted) request are parsed as the next request, the client is answered a protocol error and disconnected, and everything pipelined behind is lost")
+	}
+}
+
+func ruleC11_6(c *Ctx) {
+	p := c.P
+	if strings.Contains(p.cfgName(), "darwin") {
+		c.ok("reactor (kqueue build)", "-", "EVFilterSock is a separate event on kqueue: the rule concerns the epoll reactors")
+		c.ok("reactor (kqueue build): readable events are read", "-", "not applicable to this build configuration")
+		return
+	}
+	closeConn := c.needMethod(pkgCore, "eventloop", "closeConn")
+	read := c.needMethod(pkgCore, "eventloop", "read")
+	if closeConn == nil || read == nil {
+		return
+	}
+	// the dispatch function of this build: eventloop.callback (default) or conn.handleEvents (poll_opt)
+	var disp *ssa.Function
+	if f := p.Method(pkgCore, "eventloop", "callback"); f != nil {
+		disp = f
+	} else if f := p.Method(pkgCore, "conn", "handleEvents"); f != nil {
+		disp = f
+	}
+	if disp == nil {
+		c.undecided("reactor dispatch", "-", "neither eventloop.callback nor conn.handleEvents found")
+		return
+	}
+	c.touch(disp)
+	c.examined(len(disp.Blocks))
+	var bad ssa.Instruction
+	for _, cc := range p.callsIn(disp, closeConn) {
+		bad = cc.(ssa.Instruction)
+	}
+	pos := p.pos(disp.Pos())
+	if bad != nil {
+		pos = c.at(bad)
+	}
+	c.check(bad == nil, "reactor: no close decided from the event flags", pos, "the dispatch only calls write/read/accept",
+		"the epoll dispatch closes a connection on its own (e.g. on EPOLLERR|EPOLLHUP) before reading: a node that writes an error reply and resets the connection (-ERR max number of clients reached) delivers IN|ERR|HUP in one event, the reply is never read and the client gets nothing")
+	// readable events are read: a call of read guarded only by the in-events mask (and the success of the preceding write)
+	okR := false
+	for _, rc := range p.callsIn(disp, read) {
+		okG := true
+		for _, g := range guardsOf(rc) {
+			// allowed: the connection was found in the table; a test of the event mask; the preceding write did not fail
+			if ex, ok := g.Cond.(*ssa.Extract); ok && ex.Index == 1 {
+				if _, isLk := ex.Tuple.(*ssa.Lookup); isLk {
+					continue
+				}
+			}
+			x, op, y, isC := cmpGuard(g)
+			if isC && (op == token.NEQ || op == token.EQL) {
+				if and, ok := strip(x).(*ssa.BinOp); ok && and.Op == token.AND && isZero(y) {
+					if _, isK := constInt(and.Y); isK {
+						continue
+					}
+				}
+				if op == token.EQL && isNilConst(y) {
+					continue
+				}
+			}
+			okG = false
+		}
+		if okG {
+			okR = true
+		}
+	}
+	c.check(okR, "reactor: readable events are read", p.pos(disp.Pos()), "el.read(c) under the in-events mask only",
+		"no call of el.read that depends only on the readable mask: data that arrives together with an error/hang-up condition is dropped")
+}
+
+func ruleC12_7(c *Ctx) {
+	p := c.P
+	decode := c.needMethod(pkgCore, "CRespCodec", "Decode")
+	cread := c.needMethod(pkgCore, "eventloop", "cread")
+	if decode == nil || cread == nil {
+		return
+	}
+	// functions that run on client bytes: reachable from the client read path (log formatters included)
+	reach := map[*ssa.Function]bool{}
+	work := []*ssa.Function{decode, cread}
+	for _, f := range work {
+		reach[f] = true
+	}
+	for len(work) > 0 {
+		fn := work[0]
+		work = work[1:]
+		withClosures(fn, func(g *ssa.Function) {
+			allInstrs(g, func(in ssa.Instruction) {
+				if ci, ok := in.(ssa.CallInstruction); ok {
+					for _, callee := range calleesOfCommon(p, ci.Common()) {
+						if p.ownFunc(callee) && callee.Blocks != nil && !reach[callee] {
+							reach[callee] = true
+							work = append(work, callee)
+						}
+					}
+				}
+			})
+		})
+	}
+	var fns []*ssa.Function
+	for f := range reach {
+		fns = append(fns, f)
+	}
+	sortFuncs(fns)
+	n, loopsSeen := 0, 0
+	for _, fn := range fns {
+		for _, sl := range rangeIndexLoops(fn) {
+			loopsSeen++
+			collExpr := expr(strip(sl.coll))
+			allInstrs(fn, func(in ssa.Instruction) {
+				ia, ok := in.(*ssa.IndexAddr)
+				if !ok || ia.Index != sl.index || !sl.loop.Blocks[ia.Block()] {
+					return
+				}
+				if expr(strip(ia.X)) == collExpr {
+					return // the collection itself
+				}
+				if _, isArr := ia.X.Type().Underlying().(*types.Pointer); isArr {
+					return // fixed-size array: bounds are a compile-time matter
+				}
+				n++
+				c.touch(fn)
+				okLen := false
+				if mk, ok := strip(ia.X).(*ssa.MakeSlice); ok {
+					if lc, ok := strip(mk.Len).(*ssa.Call); ok {
+						if b, ok := lc.Call.Value.(*ssa.Builtin); ok && b.Name() == "len" && expr(strip(lc.Call.Args[0])) == collExpr {
+							okLen = true
+						}
+					}
+				}
+				c.check(okLen, "index of "+expr(ia.X)+" by the range over "+collExpr+" in "+shortFn(fn), c.at(in), "made with len of the ranged collection",
+					"a slice is indexed with the position in a different collection and was not made with that collection's length: on the client read path (this includes the formatters evaluated as log arguments on every protocol error) a long enough input indexes past the end, and the event loop has no recover")
+			})
+		}
+	}
+	c.examined(loopsSeen)
+	c.ok("client read path: cross-collection indexing", p.pos(decode.Pos()), fmt.Sprintf("%d index loops in %d functions examined, %d index another slice", loopsSeen, len(fns), n))
+}
+
+func ruleC13_6(c *Ctx) {
+	p := c.P
+	sread := c.needMethod(pkgCore, "eventloop", "sread")
+	parse := c.needMethod(pkgCore, "Frag", "parseMovedOrAsk")
+	if sread == nil || parse == nil {
+		return
+	}
+	c.examined(len(sread.Blocks))
+	var onMoved []ssa.Instruction
+	p.allInstrsDeep(sread, func(in ssa.Instruction) {
+		if call, ok := in.(*ssa.Call); ok && call.Call.IsInvoke() && call.Call.Method.Name() == "OnMoved" {
+			onMoved = append(onMoved, in)
+		}
+	})
+	if len(onMoved) != 1 {
+		c.undecided("eventloop.sread: OnMoved hand-over", p.pos(sread.Pos()), fmt.Sprintf("%d calls of EventHandler.OnMoved", len(onMoved)))
+		return
+	}
+	om := onMoved[0]
+	// no guard of the hand-over depends on what parseMovedOrAsk returned
+	dep := ""
+	for _, g := range guardsOf(om) {
+		var walk func(v ssa.Value, d int) bool
+		walk = func(v ssa.Value, d int) bool {
+			if v == nil || d > 6 {
+				return false
+			}
+			v = strip(v)
+			if ex, ok := v.(*ssa.Extract); ok {
+				if _, is := p.isCallTo(ex.Tuple, parse); is {
+					return true
+				}
+			}
+			switch x := v.(type) {
+			case *ssa.BinOp:
+				return walk(x.X, d+1) || walk(x.Y, d+1)
+			case *ssa.UnOp:
+				return walk(x.X, d+1)
+			case *ssa.Call:
+				for _, a := range x.Call.Args {
+					if walk(a, d+1) {
+						return true
+					}
+				}
+			case *ssa.Phi:
+				for _, e := range x.Edges {
+					if walk(e, d+1) {
+						return true
+					}
+				}
+			case *ssa.Convert:
+				return walk(x.X, d+1)
+			}
+			return false
+		}
+		if walk(g.Cond, 0) {
+			dep = g.String()
+		}
+	}
+	// and the parse call is followed by the hand-over on every path to the next round
+	var pc ssa.Instruction
+	for _, x := range p.callsIn(sread, parse) {
+		pc = lift(x.(ssa.Instruction), sread)
+	}
+	follows := pc != nil
+	if pc != nil {
+		li := lift(om, sread)
+		if li == nil {
+			li = om
+		}
+		exits := pathFrom(pc, func(in ssa.Instruction) bool { return in == li })
+		var loop *Loop
+		for _, l := range loopsOf(sread) {
+			if l.Blocks[pc.Block()] && (loop == nil || loop.Blocks[l.Header]) {
+				loop = l
+			}
+		}
+		if len(exits) > 0 {
+			follows = false
+		}
+		// a path back to the loop header that avoids the hand-over
+		if loop != nil {
+			seen := map[*ssa.BasicBlock]bool{}
+			var walkB func(b *ssa.BasicBlock, start int) bool
+			walkB = func(b *ssa.BasicBlock, start int) bool {
+				for i := start; i < len(b.Instrs); i++ {
+					if b.Instrs[i] == li {
+						return false
+					}
+				}
+				for _, s := range b.Succs {
+					if s == loop.Header {
+						return true
+					}
+					if !seen[s] {
+						seen[s] = true
+						if walkB(s, 0) {
+							return true
+						}
+					}
+				}
+				return false
+			}
+			if walkB(pc.Block(), instrIndex(pc)+1) {
+				follows = false
+			}
+		}
+	}
+	c.check(dep == "" && follows, "eventloop.sread: every redirect reply reaches OnMoved", c.at(om), "no guard on the parsed (addr, slot); the hand-over follows the parse on every path",
+		"a redirect reply can be dropped between its classification and OnMoved (guard "+dep+"): the fragment was already taken off the in-flight queue, so the request is never re-sent and never answered - e.g. a validity test `slot < 1` drops every redirect for slot 0")
+}
+
+func ruleC15_8(c *Ctx) {
+	p := c.P
+	n := 0
+	for _, fn := range p.Funcs {
+		if fn.Pkg == nil || fn.Pkg.Pkg.Path() != pkgNetpoll || fn.Name() != "Polling" || fn.Blocks == nil {
+			continue
+		}
+		c.touch(fn)
+		c.examined(len(fn.Blocks))
+		allInstrs(fn, func(in ssa.Instruction) {
+			call, ok := in.(*ssa.Call)
+			if !ok {
+				return
+			}
+			name := staticCalleeName(&call.Call)
+			switch {
+			case strings.HasSuffix(name, "unix.EpollWait"), strings.HasSuffix(name, "netpoll.epollWait"):
+				n++
+				okT := true
+				for _, r := range flowRoots(call.Call.Args[2], nil) {
+					if k, isK := constInt(r); !isK || k <= 0 {
+						okT = false
+					}
+				}
+				c.check(okT, "Poller.Polling: bounded wait", c.at(in), "epoll_wait with a positive constant timeout",
+					"the poller can wait without a bound (timeout "+expr(call.Call.Args[2])+"): the ticker and the timeout sweep only run when the wait returns, so on an idle proxy a request stuck on a silent backend never gets its timeout error and the topology is never refreshed")
+			case strings.HasSuffix(name, "unix.Kevent") && len(call.Call.Args) == 4 && !isNilConst(call.Call.Args[2]):
+				n++
+				c.check(!isNilConst(call.Call.Args[3]), "Poller.Polling: bounded wait", c.at(in), "kevent with a timeout",
+					"kevent is called without a timeout: the ticker and the timeout sweep do not run on an idle proxy")
+			}
+		})
+	}
+	if n == 0 {
+		c.undecided("Poller.Polling: wait call", "-", "no epoll_wait / kevent call found in netpoll.Poller.Polling")
+	}
 }
